@@ -47,6 +47,7 @@ type response struct {
 	Over    bool       `json:"over,omitempty"`    // Alloc > Ceil
 	Pending int        `json:"pending,omitempty"` // id under which the allocation site will be resolved
 	Tainted uint64     `json:"tainted,omitempty"` // bytes of out-of-proportion allocations in this worker's life
+	Used    uint64     `json:"used,omitempty"`    // heap bytes allocated in this worker's life (none is ever freed)
 	Left    []string   `json:"left,omitempty"`
 	Keys    []string   `json:"keys,omitempty"`
 	Sites   []siteInfo `json:"sites,omitempty"` // resolve
@@ -150,13 +151,14 @@ type pendingAlloc struct {
 func WorkerMain() {
 	// every allocation of at least this size is recorded with its stack (smaller ones are sampled)
 	runtime.MemProfileRate = 512 << 10
-	// The collector never runs on its own in a worker: a collection that starts while a giant slice
-	// of pointers is live scans it - touching gigabytes of otherwise untouched pages - and a freed
-	// giant span is zeroed when it is reused.  Ordinary garbage is collected by hand between calls
-	// as long as no out-of-proportion allocation happened; after one, nothing is freed any more and
-	// the supervisor retires the worker (at the latest when the input is done).
+	// The collector never runs in a worker: a collection that starts while a giant slice of pointers
+	// is live scans it - touching gigabytes of otherwise untouched pages - and freed memory is zeroed
+	// (touched) when a later giant span overlaps it.  Nothing is ever freed, so every allocation comes
+	// from fresh, untouched address space; the supervisor retires the worker when enough of it is
+	// used up (and, for the allocation profile, at the end of an input that allocated out of proportion).
 	debug.SetGCPercent(-1)
-	var sinceGC uint64
+	runtime.GC() // creates the collector's threads while address space is plentiful (resolveSites collects twice)
+	start := heapAllocs()
 	in := bufio.NewReaderSize(os.Stdin, 1<<20)
 	out := bufio.NewWriterSize(os.Stdout, 1<<16)
 	enc := json.NewEncoder(out)
@@ -181,11 +183,6 @@ func WorkerMain() {
 				os.Exit(4)
 			}
 			resp := doCall(en, rq.B, rq.X)
-			sinceGC += resp.Alloc
-			if tainted == 0 && !resp.Over && sinceGC > 96<<20 {
-				runtime.GC()
-				sinceGC = 0
-			}
 			if resp.Over {
 				nextID++
 				resp.Pending = nextID
@@ -193,6 +190,7 @@ func WorkerMain() {
 				tainted += resp.Alloc
 			}
 			resp.Tainted = tainted
+			resp.Used = heapAllocs() - start
 			enc.Encode(&resp)
 			out.Flush()
 		case "resolve":
